@@ -83,9 +83,9 @@ pub fn class_kf(input: Node) -> (r: Result<Class, VErr>)
 }} // verus!
 fn main() {{}}
 """
-    return gen, [Obl("C08.class.name-unique-in-file", ["C08"], fn="Parser::class", desc="KF twin (D114): a class is accepted only if its file declares no other class of that name (methods are registered per file under Class::method)"),
+    return gen, [Obl("C08.class.name-unique-in-file", ["C08", "C02"], fn="Parser::class", desc="KF twin (D114): a class is accepted only if its file declares no other class of that name (methods are registered per file under Class::method)"),
                  Obl("C10.class.name-const", ["C10"], fn="Parser::class", desc="Parser::class: the class's identifier is read-only at every registration (own scope, enclosing scope) and in the returned declaration")], log
 
 
-UNITS = [VUnit("c10_class", ["C10", "C08"], "a class name is const wherever it is visible", build)]
+UNITS = [VUnit("c10_class", ["C10", "C08", "C02"], "a class name is const wherever it is visible", build)]
 UNITS[0].assumes = ["pest API, sub-parsers, type registry abstract; the two registrations are abstract callees whose PRECONDITION is the const flag", "child count from the grammar: with only two children (no flags) the third `next().unwrap()` would not be reached -- the precondition is the longer form's count"]
